@@ -164,3 +164,24 @@ Definition c15_item_strict (l : c15_lang) (lg : lang) (it : ritem) : bool :=
     c15_rtype_plain l (atype a)
   | ItConst _ => true
   end.
+
+(* ---- TypeScript, whole files ----
+   the header prints the version inside a block comment: it must not contain a star (so not `*/`);
+   the trailer (ReviverFunc) prints the property names of Date-typed fields RAW between double quotes:
+   no double quote, no backslash, no line terminator in a field's key;
+   the trailer starts with a comment typeshare writes itself. *)
+Definition c15_no_star (s : str) : bool := forallb (fun c => negb (c =? ch_star)) s.
+Definition c15_ts_raw_char (c : char) : bool := negb (c =? ch_dq) && negb (c =? ch_bs) && negb (eol_js c).
+Definition c15_ts_key_ok (i : str) : bool := forallb c15_ts_raw_char i.
+Definition c15_ts_field_key_ok (f : rfield) : bool := c15_ts_key_ok (renamed (fid f)).
+Definition c15_ts_item_keys_ok (it : ritem) : bool :=
+  match it with
+  | ItStruct s => forallb c15_ts_field_key_ok (sfields s)
+  | ItEnum e => forallb (fun v => match v with VAnon fs _ => forallb c15_ts_field_key_ok fs | _ => true end) (evariants (enum_shared e))
+  | _ => true
+  end.
+Definition c15_ts_trailer_docs : list str :=
+  [lit "Custom JSON reviver and replacer functions for dynamic data transformation";
+   lit "ReviverFunc is used during JSON parsing to detect and transform specific data structures";
+   lit "ReplacerFunc is used during JSON serialization to modify certain values before stringifying.";
+   lit "These functions allow for flexible encoding and decoding of data, ensuring that complex types are properly handled when converting between TS objects and JSON"].
